@@ -43,6 +43,26 @@ def memo_key(r: R, chk, rule="MEMO-KEY", entries=None):
 POLY_ONLY = ("LeastSquare.spline2spline", "heavy.eval_spline_nodes", "MathOperations.add_spline_curve", "MathOperations.mul_spline_curve", "MathOperations.knotvector_mul", "Operations.matrix_transformation")
 
 
+def _homogeneous_numerators(fi, name: str) -> bool:
+    """the function forms `w * P` for every pair of zip(<name>.weights, <name>.ctrlpoints)"""
+    wnames = {name + ".weights"}
+    for a in ast.walk(fi.node):
+        if isinstance(a, ast.Assign) and len(a.targets) == 1 and isinstance(a.targets[0], ast.Name) and seg(a.value) == name + ".weights":
+            wnames.add(a.targets[0].id)
+    for c in ast.walk(fi.node):
+        if isinstance(c, (ast.ListComp, ast.GeneratorExp)) and len(c.generators) == 1:
+            g = c.generators[0]
+            if isinstance(g.iter, ast.Call) and seg(g.iter.func) == "zip" and len(g.iter.args) == 2 and isinstance(g.target, ast.Tuple) and len(g.target.elts) == 2:
+                a0, a1 = (seg(x) for x in g.iter.args)
+                t0, t1 = (seg(x) for x in g.target.elts)
+                pairs = {a0: t0, a1: t1}
+                wt = next((t for a, t in pairs.items() if a in wnames), None)
+                pt = next((t for a, t in pairs.items() if a == name + ".ctrlpoints"), None)
+                if wt and pt and isinstance(c.elt, ast.BinOp) and isinstance(c.elt.op, ast.Mult) and {seg(c.elt.left), seg(c.elt.right)} == {wt, pt}:
+                    return True
+    return False
+
+
 def poly_only(r: R, chk, quals: List[str], rule="POLY-ONLY", floor: int = 1):
     n = 0
     for q in quals:
@@ -64,6 +84,10 @@ def poly_only(r: R, chk, quals: List[str], rule="POLY-ONLY", floor: int = 1):
                     n += 1
                     name = fi.params[i]
                     ok = (f"{name}.weights is None", True) in facts
+                    if not ok and (f"{name}.weights is None", False) in facts and _homogeneous_numerators(fi, name):
+                        # the path knows that `name` is rational and works in homogeneous coordinates: the polynomial operator is
+                        # applied to the weighted points w_i*P_i and to the weights (WEIGHT-HOMOG decides that the result is divided back)
+                        ok = True
                     chk.ob(rule, f"{q}: `{seg(cr.node, 40)}` (polynomial basis of `{name}`) only where `{name}.weights is None`", ok, loc=r.loc(ctx, cr.node),
                            detail="" if ok else f"{q}: `{seg(cr.node, 60)}` works on the polynomial B-spline basis of `{name}`'s knot vector, but the path has not established `{name}.weights is None`: for a rational `{name}` the polynomial basis is used with the weights ignored",
                            func=q, construct=f"{callee.name} reached with rational {('self' if i == 0 else 'other')}")
@@ -216,6 +240,26 @@ def normalize_paths(r: R, chk, qual="knotspace.KnotVector.normalize", rule="NORM
     ctx = r.root(qual)
     shifts = {c.cfgnode for c in ctx.calls if any(f.name in ("shift", "__iadd__", "__isub__") for f in c.callees)}
     scales = {c.cfgnode for c in ctx.calls if any(f.name in ("scale", "__imul__", "__itruediv__") or f.qual.endswith("internal.setter") for f in c.callees)} - shifts
+    # a single validated rebuild `self.internal = IKV((k - umin) / length for k in self)` is shift and scale at once
+    defs = {}
+    for a in ast.walk(ctx.fi.node):
+        if isinstance(a, ast.Assign) and len(a.targets) == 1 and isinstance(a.targets[0], ast.Name):
+            defs.setdefault(a.targets[0].id, []).append(a.value)
+
+    def ops_in(e, depth=0):
+        out = {type(x.op) for x in ast.walk(e) if isinstance(x, ast.BinOp)}
+        if depth < 3:
+            for x in ast.walk(e):
+                if isinstance(x, ast.Name):
+                    for d in defs.get(x.id, []):
+                        out |= ops_in(d, depth + 1)
+        return out
+
+    for c in ctx.calls:
+        if c.kind == "setter" and any(f.qual.endswith("internal.setter") for f in c.callees):
+            st = ctx.cfg.nodes[c.cfgnode].ast
+            if isinstance(st, ast.Assign) and {ast.Sub, ast.Div} <= ops_in(st.value):
+                shifts.add(c.cfgnode)
     chk.floor(rule, "shift step in normalize", len(shifts), 1)
     chk.floor(rule, "scale step in normalize", len(scales), 1)
     rets = [n for n in r.stmt_nodes(ctx) if isinstance(n.ast, ast.Return)]
@@ -808,3 +852,172 @@ def jacobian(r: R, chk, quals: List[str], rule="JACOBIAN"):
                    detail="" if not bad else f"{q}: `{seg(bad[0], 60)}` (and {len(bad) - 1} more) add reference-interval quadrature sums of the span [{a_}, {b_}] without the factor `{b_} - {a_}`: every span counts the same whatever its length, so for non-uniform knots the accumulated matrices are not the L2 inner products (the residual of the fit is not L2-orthogonal to the target space) and the error is not the integral of the squared residual",
                    func=q, construct="span quadrature without the span length")
     chk.floor(rule, "span-by-span quadrature loops", total, len(quals))
+
+
+# ------------------------------------------------------------------------------------------------
+# ZIP-ALIGN: two parallel sequences are zipped with the same slice
+def zip_align(r: R, chk, entries: List[str], rule="ZIP-ALIGN"):
+    """B is *parallel* to A when it is created with len(A) slots and filled by `for i, x in enumerate(A): B[i] = …`, or is a
+    comprehension over A (B[i] describes A[i]).  `zip(A[s], B[t])` with different slices s, t pairs A[s0+k] with the description
+    of another element: every element gets its neighbour's attribute (and the tail is silently dropped)."""
+    from .divisions import reachable_functions
+
+    n = 0
+    for q in reachable_functions(r, entries):
+        fi = r.prog.func(q)
+        parallel = {}  # B -> A
+        for s in ast.walk(fi.node):
+            if isinstance(s, ast.Assign) and len(s.targets) == 1 and isinstance(s.targets[0], ast.Name):
+                v = s.value
+                if isinstance(v, (ast.ListComp, ast.GeneratorExp)) and len(v.generators) == 1 and isinstance(v.generators[0].iter, ast.Name) and not v.generators[0].ifs:
+                    parallel[s.targets[0].id] = v.generators[0].iter.id
+                if isinstance(v, ast.Call) and seg(v.func) in ("tuple", "list") and v.args and isinstance(v.args[0], (ast.ListComp, ast.GeneratorExp)) and len(v.args[0].generators) == 1 and isinstance(v.args[0].generators[0].iter, ast.Name) and not v.args[0].generators[0].ifs:
+                    parallel[s.targets[0].id] = v.args[0].generators[0].iter.id
+            if isinstance(s, ast.For) and isinstance(s.iter, ast.Call) and seg(s.iter.func) == "enumerate" and s.iter.args and isinstance(s.iter.args[0], ast.Name) and isinstance(s.target, ast.Tuple) and len(s.target.elts) == 2 and isinstance(s.target.elts[0], ast.Name):
+                idx = s.target.elts[0].id
+                for st in ast.walk(s):
+                    if isinstance(st, ast.Assign) and len(st.targets) == 1 and isinstance(st.targets[0], ast.Subscript) and isinstance(st.targets[0].value, ast.Name) and isinstance(st.targets[0].slice, ast.Name) and st.targets[0].slice.id == idx:
+                        parallel[st.targets[0].value.id] = s.iter.args[0].id
+        if not parallel:
+            continue
+        ctx = r.A.roots.get(q)
+        for c in ast.walk(fi.node):
+            if not (isinstance(c, ast.Call) and seg(c.func) == "zip" and len(c.args) >= 2):
+                continue
+
+            def base_slice(e):
+                if isinstance(e, ast.Name):
+                    return e.id, ""
+                if isinstance(e, ast.Subscript) and isinstance(e.value, ast.Name) and isinstance(e.slice, ast.Slice):
+                    return e.value.id, seg(e.slice)
+                return None, None
+
+            parts = [base_slice(a) for a in c.args]
+            for i in range(len(parts)):
+                for j in range(len(parts)):
+                    (a, sa), (b, sb) = parts[i], parts[j]
+                    if a is None or b is None or parallel.get(b) != a:
+                        continue
+                    n += 1
+                    ok = sa == sb
+                    chk.ob(rule, f"{q}: `{seg(c, 50)}` zips `{a}` and its parallel list `{b}` with the same slice", ok, loc=f"{fi.module}.py:{c.lineno}",
+                           detail="" if ok else f"{q}: `{b}[i]` describes `{a}[i]` (filled index by index over `{a}`), but `{seg(c, 60)}` takes `{a}[{sa}]` with `{b}[{sb}]`: every element is paired with the entry of a neighbour (here each interior knot gets the continuity class of the knot on its left) and the last entries are dropped",
+                           func=q, construct=f"parallel lists zipped with different slices: {a}[{sa}] / {b}[{sb}]")
+    chk.note(f"{rule}: {n} zip(s) of a sequence with a list built in parallel to it examined")
+    return n
+
+
+# ------------------------------------------------------------------------------------------------
+# ONE-NODE-FAMILY: the parameters at which given DATA is assumed to be sampled do not depend on the number type
+def one_node_family(r: R, chk, qual: str, rule="ONE-NODE-FAMILY"):
+    """`fit_points(points)` without nodes has to decide where the points were sampled.  That is part of the meaning of the data:
+    if the family of reference nodes is selected by the number type of the knots (equally spaced for Fraction, Chebyshev for
+    float) the same data gives different curves for the two representations."""
+    from .c10 import NS, funcrefs
+
+    ctx = r.root(qual)
+    fi = ctx.fi
+    fams = set()
+    sites = []
+    for c in ast.walk(fi.node):
+        if isinstance(c, ast.Call):
+            fr = [f for f in funcrefs(ctx, c.func) if f.startswith(NS)]
+            if fr:
+                fams |= set(fr)
+                sites.append(c)
+    chk.floor(rule, f"reference-node generators used by {qual}", len(sites), 1)
+    ok = len(fams) == 1
+    chk.ob(rule, f"{qual}: the default nodes come from one node family", ok, loc=r.loc(ctx, sites[0]) if sites else r.loc(ctx, fi.node),
+           detail="" if ok else f"{qual}: the nodes assumed for the given points are generated by {sorted(f.split('.')[-1] for f in fams)} depending on a test of the number type: the same points fitted over Fraction knots and over the equal float knots are attributed to different parameters and give different curves (the documentation promises equally distributed nodes)",
+           func=qual, construct="default nodes depend on the number type")
+
+
+# ------------------------------------------------------------------------------------------------
+# NO-LOSSY: an operation that promises the exact result does not pass it through a tolerance-accepting simplifier
+LOSSY = ("curves.Curve.clean", "curves.Curve.knot_clean", "curves.Curve.degree_clean", "curves.Curve.knot_remove", "curves.Curve.degree_decrease")
+
+
+def no_lossy(r: R, chk, entries: List[str], rule="NO-LOSSY"):
+    """clean / knot_clean / degree_clean / knot_remove / degree_decrease accept any change whose squared L2 size is below an
+    ABSOLUTE tolerance (1e-9 by default): a result that goes through one of them equals the exact result only up to that
+    tolerance, whatever the scale of the data (u**2/100000 loses its degree)."""
+    from .divisions import reachable_functions
+
+    n = 0
+    for q in reachable_functions(r, entries):
+        ctx = r.A.roots.get(q)
+        if ctx is None or q in LOSSY:
+            continue
+        for cr in ctx.calls:
+            hit = [f.qual for f in cr.callees if f.qual in LOSSY]
+            n += 1 if cr.callees else 0
+            if hit:
+                chk.ob(rule, f"{q}: `{seg(cr.node, 40)}` is not a tolerance-accepting simplifier", False, loc=r.loc(ctx, cr.node),
+                       detail=f"{q}: `{seg(cr.node, 50)}` ({hit[0]}) simplifies the result with an absolute tolerance (1e-9 on the squared L2 change by default): for data of small magnitude a genuine degree / knot is removed and the returned curve is no longer the exact result (the derivative of u**2/100000 becomes the constant 1/100000)",
+                       func=q, construct=f"result passed through {hit[0].split('.')[-1]}")
+    chk.ob(rule, f"no call of clean / knot_clean / degree_clean / knot_remove / degree_decrease is reachable from {', '.join(entries)}", True, loc="", detail="")
+    chk.note(f"{rule}: {n} resolved call sites reachable from {', '.join(entries)} examined")
+
+
+# ------------------------------------------------------------------------------------------------
+# ENDS-CANDIDATE: a minimum over a closed interval compares the interval ends, not only stationary points
+def ends_candidate(r: R, chk, piece_fn: str, curve_fn: str, rule="ENDS-CANDIDATE"):
+    """the candidate parameters among which the nearest one is selected contain both ends of every piece on every path:
+    either `piece_fn` puts the two names unpacked from `.limits` into the collection it returns (initial value or an
+    unconditional add / union that dominates the return), or `curve_fn` puts all knots of the curve into its candidates.
+    Newton's iteration only finds stationary points of the distance (maxima included)."""
+
+    def unconditional_members(ctx, coll: str):
+        """names that are members of collection `coll` on every path to the returns (top-level statements only)"""
+        out = set()
+        rets = [n for n in r.stmt_nodes(ctx) if isinstance(n.ast, ast.Return)]
+        for n in r.stmt_nodes(ctx):
+            a = n.ast
+            e = None
+            if isinstance(a, ast.Assign) and len(a.targets) == 1 and isinstance(a.targets[0], ast.Name) and a.targets[0].id == coll:
+                e = a.value
+            elif isinstance(a, ast.AugAssign) and isinstance(a.target, ast.Name) and a.target.id == coll and isinstance(a.op, (ast.BitOr, ast.Add)):
+                e = a.value
+            elif isinstance(a, ast.Expr) and isinstance(a.value, ast.Call) and isinstance(a.value.func, ast.Attribute) and isinstance(a.value.func.value, ast.Name) and a.value.func.value.id == coll and a.value.func.attr in ("add", "append", "update", "extend") and a.value.args:
+                e = a.value.args[0]
+            if e is None or not rets or not all(ctx.cfg.dominates(n.id, R_.id) for R_ in rets):
+                continue
+            while isinstance(e, ast.Call) and seg(e.func) in ("set", "list", "tuple", "sorted") and e.args:
+                e = e.args[0]
+            if isinstance(e, (ast.Set, ast.List, ast.Tuple)):
+                out |= {x.id for x in e.elts if isinstance(x, ast.Name)}
+                out |= {seg(x) for x in e.elts}
+            elif isinstance(e, ast.Name):
+                out.add(e.id)
+            else:
+                out.add(seg(e))
+        return out
+
+    ctx = r.root(piece_fn)
+    fi = ctx.fi
+    lim = None
+    for a in ast.walk(fi.node):
+        if isinstance(a, ast.Assign) and isinstance(a.targets[0], ast.Tuple) and len(a.targets[0].elts) == 2 and "limits" in seg(a.value):
+            lim = tuple(e.id for e in a.targets[0].elts if isinstance(e, ast.Name))
+    colls = set()
+    for R_ in [n for n in r.stmt_nodes(ctx) if isinstance(n.ast, ast.Return) and n.ast.value is not None]:
+        e = R_.ast.value
+        while isinstance(e, ast.Call) and seg(e.func) in ("tuple", "list", "sorted", "set") and e.args:
+            e = e.args[0]
+        if isinstance(e, ast.Name):
+            colls.add(e.id)
+    chk.floor(rule, f"candidate collection returned by {piece_fn}", len(colls), 1)
+    ok = False
+    if lim and len(lim) == 2:
+        for c in colls:
+            if set(lim) <= unconditional_members(ctx, c):
+                ok = True
+    if not ok:
+        c2 = r.root(curve_fn)
+        for c in {x.id for x in ast.walk(c2.fi.node) if isinstance(x, ast.Name)}:
+            mem = unconditional_members(c2, c)
+            if any(m.endswith(".knots") or m.endswith("knotvector.knots") for m in mem):
+                ok = True
+    chk.ob(rule, f"{piece_fn}: both ends of the piece are candidates on every path", ok, loc=r.loc(ctx, fi.node),
+           detail="" if ok else f"{piece_fn}: the candidate set starts empty and receives `{lim[0] if lim else 'umin'}` / `{lim[1] if lim else 'umax'}` only when a Newton iterate happens to leave the interval; when every start converges to an interior stationary point (a maximum of the distance included) the ends are never compared, although the minimum over a closed interval can be at an end: parabola y = x**2 on [-1, 1] and P = (0, 10) returns u = 1/2 (distance 10, the maximum) instead of u = 0, 1 (distance 9.06)",
+           func=piece_fn, construct="interval ends not among the candidates")
